@@ -117,6 +117,7 @@ type sessCfg struct {
 	AddPath bool   `json:"addpath"`
 	RRC     string `json:"rrc"`   // "no" | "default" (cluster id = router id) | "explicit" (cluster id 7)
 	Other   bool   `json:"other"` // a session with a second peer (same VRF, same local AS) is established throughout
+	Active  bool   `json:"active"` // the peer is not passive: its own FSM is handed the connections and used for every session
 }
 
 type sessOpen struct {
@@ -217,7 +218,7 @@ func newSession(cfg sessCfg) *session {
 	pa, _ := bnet.IPFromBytes(s.peerIP)
 	s.peerKey = pa.Dedup()
 	pc := server.PeerConfig{AdminEnabled: true, LocalAS: 65000, PeerAS: s.peerAS, LocalAddress: bnet.IPv4FromOctets(10, 0, 0, 200).Ptr(),
-		PeerAddress: s.peerKey, Passive: true, VRF: s.vrf, RouterID: 100, HoldTime: time.Duration(cfg.Hold) * time.Second,
+		PeerAddress: s.peerKey, Passive: !cfg.Active, ReconnectInterval: 5 * time.Millisecond, VRF: s.vrf, RouterID: 100, HoldTime: time.Duration(cfg.Hold) * time.Second,
 		KeepAlive: time.Duration(cfg.Hold) * time.Second / 3, IPv4: af(), IPv6: af(), PeerRoleStrictMode: cfg.Strict}
 	if cfg.Role != "none" && cfg.Role != "" {
 		pc.PeerRole = sessRoleConfig(cfg.Role)
@@ -720,6 +721,13 @@ func init() {
 				s.conn = newVconn(net.IPv4(10, 0, 0, 200).To4(), s.peerIP)
 				s.asn4, s.addpath = false, false
 				s.nsess++
+				if s.cfg.Active {
+					// the dial of the peer's own FSM "succeeds": the connection is handed over where its TCP connector does it
+					if !server.VerifDeliverConn(s.srv, s.vrf, s.peerKey, 0, s.conn, 5*time.Second) {
+						return &core.Divergence{Step: i, Action: a, Field: "dial", Kind: "hang", Class: "active", Want: "the peer's own FSM takes its connection"}
+					}
+					break
+				}
 				select {
 				case s.lm.ch <- tcp.ConnWithVRF{Conn: s.conn, VRF: s.vrf}:
 				case <-time.After(3 * time.Second):
